@@ -145,7 +145,7 @@ def S_(b):
 def terms(depth=1):
     K = {}
     K["Class"] = [object, A, B, C, D, E, int, bool, str, Sized, Proto, Proto2, WithFoo, tuple, type]
-    K["Alias"] = [list[A], list[B], list[int], list[bool], dict[str, A], dict[str, B], type[A], type[B], type[object], list[list[A]], list[list[B]], typing.List[A], set[A], typing.Tuple[()], tuple[()]]
+    K["Alias"] = [list[A], list[B], list[int], list[bool], dict[str, A], dict[str, B], dict[bool, str], dict[int, str], dict[int, A], dict[bool, B], type[A], type[B], type[object], list[list[A]], list[list[B]], typing.List[A], set[A], typing.Tuple[()], tuple[()]]
     K["Union"] = [N(A | E), N(B | C), N(B | E), N(C | B), N(int | str), N(bool | str), N(E | A)]
     K["Inter"] = [I_(A, E), I_(B, C), I_(B, E), I_(C, B), I_(A, Proto), I_(E, A)]
     K["Exactly"] = [X_(A), X_(B), X_(int), X_(E), X_(A)]  # two separately built X_(A)
@@ -161,7 +161,7 @@ def terms(depth=1):
     # must not depend on the position of the member that decides it); dependent types with wildcard parameters
     K["Union"] += [U_(B, A), U_(A, B), U_(D, B, E)]
     K["Inter"] += [I_(A, B), I_(B, A), I_(Sized, tuple, A)]
-    K["FuncDep"] += [Shape[2, typing.Any], Shape[typing.Any, 2], Shape[2, 2], Shape[typing.Any, typing.Any]]
+    K["FuncDep"] += [Shape[2, typing.Any], Shape[typing.Any, 2], Shape[2, 2], Shape[typing.Any, typing.Any], Shape[2, 3, typing.Any], Shape[typing.Any, typing.Any, 5], Shape[2, typing.Any, typing.Any]]
     if depth >= 2:
         K["Union"] += [U_(I_(A, E), int), U_(X_(A), E), U_(N(Literal[1]), str), U_(list[A], E)]
         K["Inter"] += [I_(N(A | E), C), I_(X_(A), E)]
